@@ -173,14 +173,14 @@ func slIdx(off, i T) T {
 	return app("sidx", off, i)
 }
 
-func sel(a, i T) T      { return app("select", a, i) }
-func sto(a, i, v T) T   { return app("store", a, i, v) }
-func add(a, b T) T      { return app("+", a, b) }
-func sub(a, b T) T      { return app("-", a, b) }
-func le(a, b T) T       { return app("<=", a, b) }
-func lt(a, b T) T       { return app("<", a, b) }
-func ge(a, b T) T       { return app(">=", a, b) }
-func gt(a, b T) T       { return app(">", a, b) }
+func sel(a, i T) T          { return app("select", a, i) }
+func sto(a, i, v T) T       { return app("store", a, i, v) }
+func add(a, b T) T          { return app("+", a, b) }
+func sub(a, b T) T          { return app("-", a, b) }
+func le(a, b T) T           { return app("<=", a, b) }
+func lt(a, b T) T           { return app("<", a, b) }
+func ge(a, b T) T           { return app(">=", a, b) }
+func gt(a, b T) T           { return app(">", a, b) }
 func inRange(lo, x, hi T) T { return and(le(lo, x), le(x, hi)) }
 
 // isAtom reports whether t is a symbol or a literal (no need to name it).
@@ -382,7 +382,6 @@ func (s *Script) mark() int { return len(s.lines) }
 func (s *Script) prefix(n int) string {
 	return strings.Join(s.lines[:n], "\n")
 }
-
 
 // ---- native string rendering (lemma functions over strings and integers) ----
 //
